@@ -62,6 +62,14 @@ def desugar(loc, relfile, fn_paths, rules, _pass=0, optional=()):
                     rewrites.append((a, b, new))
                     records.append({"fn": fp, "rule": "D28 X.collect::<Vec<_>>() [X the iterator parameter]  =>  X",
                                     "original": src[a:b], "rewritten": new})
+            if "D42" in rules:
+                # in-place sort / dedup of a vector of integers: stubs with the documented effect (spec/std_sort_dedup.rs)
+                for m in re.finditer(r"\b([a-z_][a-z_0-9]*)\.(sort|dedup)\(\);", src[it["start"]:it["end"]]):
+                    a, b = it["start"] + m.start(), it["start"] + m.end()
+                    new = f"pv_{m.group(2)}(&mut {m.group(1)});"
+                    rewrites.append((a, b, new))
+                    records.append({"fn": fp, "rule": "D42 V.sort(); / V.dedup();  =>  pv_sort(&mut V); / pv_dedup(&mut V);   (stubs: ascending permutation / consecutive repetitions removed)",
+                                    "original": src[a:b], "rewritten": new})
             if "D33" in rules:
                 # a clause given as `impl IntoIterator<Item = T>` that the function maps over once: a vector of the items
                 for m in re.finditer(r"impl IntoIterator<Item = ([A-Za-z_0-9]+)>", src[it["start"]:it["end"]]):
@@ -161,6 +169,23 @@ def desugar(loc, relfile, fn_paths, rules, _pass=0, optional=()):
                     new = (f"let pv_seq_{pat} = {ex}; let mut pv_n_{pat}: usize = 0; {lab}while pv_n_{pat} < pv_seq_{pat}.len() {{ let {pat} = pv_seq_{pat}[pv_n_{pat}]; pv_n_{pat} += 1;")
                     rewrites.append((a0, v["call"][1], new))
                     records.append({"fn": fp, "rule": "D30 for p in E { B }  =>  let s = E; let mut n = 0; while n < s.len() { let p = s[n]; n += 1; B }   (E is evaluated once to an indexable sequence of copyable items; Verus `for` has no `continue`)",
+                                    "original": src[v["call"][0]:v["call"][1]], "rewritten": new})
+                    continue
+                if v["rule"] == "D43":
+                    pat = src[v["pat"][0]:v["pat"][1]]
+                    lo = src[v["lo"][0]:v["lo"][1]]
+                    hi = src[v["hi"][0]:v["hi"][1]]
+                    new = (f"let pv_lo_{pat} = {lo}; let mut pv_rv_{pat} = {hi}; while pv_rv_{pat} > pv_lo_{pat} {{ pv_rv_{pat} -= 1; let {pat} = pv_rv_{pat};")
+                    rewrites.append((v["call"][0], v["call"][1], new))
+                    records.append({"fn": fp, "rule": "D43 for x in (LO..HI).rev() { B }  =>  let lo = LO; let mut n = HI; while n > lo { n -= 1; let x = n; B }   (both bounds are evaluated once, as the range expression does; no `continue` in B)",
+                                    "original": src[v["call"][0]:v["call"][1]], "rewritten": new})
+                    continue
+                if v["rule"] == "D41":
+                    pat = src[v["pat"][0]:v["pat"][1]]
+                    ex = src[v["expr"][0]:v["expr"][1]]
+                    new = (f"let pv_seq_{pat} = &{ex}; let mut pv_n_{pat}: usize = 0; while pv_n_{pat} < pv_seq_{pat}.len() {{ let {pat} = &pv_seq_{pat}[pv_n_{pat}]; pv_n_{pat} += 1;")
+                    rewrites.append((v["call"][0], v["call"][1], new))
+                    records.append({"fn": fp, "rule": "D41 for p in &E { B }  =>  let s = &E; let mut n = 0; while n < s.len() { let p = &s[n]; n += 1; B }   (E is borrowed once; the loop has no `continue` of its own, a `break` keeps its meaning)",
                                     "original": src[v["call"][0]:v["call"][1]], "rewritten": new})
                     continue
                 if v["rule"] == "D31":
@@ -330,6 +355,9 @@ def desugar(loc, relfile, fn_paths, rules, _pass=0, optional=()):
                     else:
                         bind = f"let {pat} = &{recv}[pv_k];"
                     tail = "pv_c" if src[v["call"][0]:v["call"][1]].rstrip().endswith("collect::<Vec<_>>()") else "pv_c.into()"
+                    # an explicit vector type as the target of the collect: the target is the vector itself
+                    if re.search(r"collect::<Vec<.*>>\(\)$", src[v["call"][0]:v["call"][1]].rstrip(), re.S):
+                        tail = "pv_c"
                     # the collect is the tail expression of a function declared to return a Vec: the target is the vector itself
                     if (tail != "pv_c" and "ret" in it and src[it["ret"][0]:it["ret"][1]].strip().startswith("Vec<")
                             and src[v["call"][1]:it["body_close"]].strip() == ""):
